@@ -40,7 +40,12 @@ type verifPipelineResult struct {
 	UDPCount  uint64   `json:"udp_count"`
 	Decoded   uint64   `json:"decoded_count"`
 	Mirrored  int      `json:"mirrored"`
-	Error     string   `json:"error,omitempty"`
+	// what the workers queued for the mirror goroutine: [source address hex, payload hex], read only after
+	// all datagrams were processed (delayed consumer), in queue order
+	MirroredMsgs [][2]string `json:"mirrored_msgs"`
+	// receive buffers found in the pool afterwards whose length is not the configured UDP size
+	ShortBuffers int    `json:"short_buffers"`
+	Error        string `json:"error,omitempty"`
 }
 
 func init() { verifCommands["pipeline"] = verifPipeline }
@@ -83,9 +88,10 @@ func verifPipeline(raw []byte) interface{} {
 		mq       chan []byte
 		udpLen   func() int
 		counters func() (uint64, uint64)
-		mirrored func() int
+		mirrored func() [][2]string
+		pool     *sync.Pool
 	)
-	mirrored = func() int { return 0 }
+	mirrored = func() [][2]string { return nil }
 	start := func(worker func(chan struct{})) {
 		for n := 0; n < c.Workers; n++ {
 			q := make(chan struct{})
@@ -115,13 +121,14 @@ func verifPipeline(raw []byte) interface{} {
 		counters = func() (uint64, uint64) {
 			return atomic.LoadUint64(&i.stats.UDPCount), atomic.LoadUint64(&i.stats.DecodedCount)
 		}
-		mirrored = func() int {
-			n := 0
+		pool = ipfixBuffer
+		mirrored = func() [][2]string {
+			var out [][2]string
 			for len(ipfixMCh) > 0 {
-				<-ipfixMCh
-				n++
+				m := <-ipfixMCh
+				out = append(out, [2]string{hex.EncodeToString(m.raddr.IP), hex.EncodeToString(m.body)})
 			}
-			return n
+			return out
 		}
 	case "nf9":
 		mCacheNF9 = netflow9.GetCache("")
@@ -130,6 +137,7 @@ func verifPipeline(raw []byte) interface{} {
 			netflow9.NewDecoder(verifAddr(d[0]).IP, b).Decode(mCacheNF9)
 		}
 		netflowV9Buffer = &sync.Pool{New: func() interface{} { return make([]byte, opts.NetflowV9UDPSize) }}
+		pool = netflowV9Buffer
 		i := &NetflowV9{}
 		start(i.netflowV9Worker)
 		enqueue = func(addr *net.UDPAddr, p []byte) {
@@ -144,6 +152,7 @@ func verifPipeline(raw []byte) interface{} {
 		}
 	case "nf5":
 		netflowV5Buffer = &sync.Pool{New: func() interface{} { return make([]byte, opts.NetflowV5UDPSize) }}
+		pool = netflowV5Buffer
 		i := &NetflowV5{}
 		start(i.netflowV5Worker)
 		enqueue = func(addr *net.UDPAddr, p []byte) {
@@ -171,13 +180,14 @@ func verifPipeline(raw []byte) interface{} {
 		counters = func() (uint64, uint64) {
 			return atomic.LoadUint64(&s.stats.UDPCount), atomic.LoadUint64(&s.stats.DecodedCount)
 		}
-		mirrored = func() int {
-			n := 0
+		pool = sFlowBuffer
+		mirrored = func() [][2]string {
+			var out [][2]string
 			for len(sFlowMCh) > 0 {
-				<-sFlowMCh
-				n++
+				m := <-sFlowMCh
+				out = append(out, [2]string{hex.EncodeToString(m.raddr.IP), hex.EncodeToString(m.body)})
 			}
-			return n
+			return out
 		}
 	default:
 		return verifPipelineResult{Error: "unknown proto " + c.Proto}
@@ -217,6 +227,13 @@ func verifPipeline(raw []byte) interface{} {
 		res.Published = append(res.Published, hex.EncodeToString(<-mq))
 	}
 	res.UDPCount, res.Decoded = counters()
-	res.Mirrored = mirrored()
+	res.MirroredMsgs = mirrored()
+	res.Mirrored = len(res.MirroredMsgs)
+	// the receive loop reads into whatever the pool hands out: every buffer in it must have the full size
+	for n := 0; n < 4*len(c.Dgrams)+64 && pool != nil; n++ {
+		if b := pool.Get().([]byte); len(b) != c.UDPSize {
+			res.ShortBuffers++
+		}
+	}
 	return res
 }
